@@ -54,6 +54,13 @@ type tagHidden struct {
 	b string
 }
 
+// tags and CQL field names with upper-case letters: a tag is matched exactly, an untagged field case-insensitively
+type tagMixed struct {
+	UserId int32  `cassandra:"userId"`
+	Zip    string `cassandra:"ZIP"`
+	Plain  int32
+}
+
 type structCase struct {
 	t      *ctype
 	gt     reflect.Type
@@ -74,6 +81,7 @@ func tagCases() []structCase {
 		{t: u([]string{"a", "b"}, i32, txt), gt: reflect.TypeOf(tagEmpty{}), fidx: []int{1, 0}, a: v(vint(5), s("x"))},
 		{t: u([]string{"a", "b"}, i32, txt), gt: reflect.TypeOf(tagDup{}), fidx: []int{0, 2}, a: v(vint(5), s("x"))},
 		{t: u([]string{"name"}, txt), gt: reflect.TypeOf(tagShadow{}), fidx: []int{1}, a: v(s("visible"))},
+		{t: u([]string{"userId", "ZIP", "PLAIN"}, i32, txt, i32), gt: reflect.TypeOf(tagMixed{}), fidx: []int{0, 1, 2}, a: v(vint(5), s("x"), vint(6))},
 		{t: u([]string{"a", "b"}, i32, txt), gt: reflect.TypeOf(tagHidden{}), fidx: []int{0, -1}, a: v(vint(5), s("x")), refuse: true},
 	}
 }
@@ -127,6 +135,26 @@ func cmdTags(next func() string) {
 			rec.Class, rec.Detail = "ok", fmt.Sprintf("Encode err=%v, Decode err=%v", eerr, derr)
 		}
 		hlib.Emit(rec)
+	}
+	// the same struct as a CQL map<varchar,int>: the key of a tagged field is its tag, exactly (upper-case letters included); of an untagged
+	// field its lower-cased name
+	{
+		type mixedMap struct {
+			UserId int32 `cassandra:"userId"`
+			Zip    int32 `cassandra:"ZIP"`
+			Plain  int32
+		}
+		mt := mapT(scalarT("SVarchar"), scalarT("SInt"))
+		a := &aval{kind: "map", pairs: [][2]*aval{{aBytes([]byte("userId")), vint(1)}, {aBytes([]byte("ZIP")), vint(2)}, {aBytes([]byte("plain")), vint(3)}}}
+		r := &rep{t: mt, kind: "structmap", gt: reflect.TypeOf(mixedMap{}), fidx: []int{0, 1, 2}}
+		for _, p := range a.pairs {
+			r.fields = append(r.fields, g.plan(mt.val, []*aval{p[1]}, false, true))
+		}
+		for _, ver := range []primitive.ProtocolVersion{primitive.ProtocolVersion2, primitive.ProtocolVersion4} {
+			rec := runCase(next(), mt, r, a, ver)
+			rec.Kind = "directed"
+			hlib.Emit(rec)
+		}
 	}
 	// decode-only: a map<varchar,int> entry whose key names no struct field (here the empty key) must not be stored anywhere: error, or a
 	// struct from which every wire entry can be read back under its own key
